@@ -37,6 +37,7 @@ var commands = map[string]func([]string){
 	"gtldgen":    cmdGtldGen,
 	"validity":   cmdValidity,
 	"cfgdoc":     cmdCfgDoc,
+	"cover":      cmdCover,
 }
 
 func main() {
